@@ -27,7 +27,7 @@ CONSTANTS FIX_D01,    \* promotion for ~ << >> and unary +
           FIX_D04,    \* getTypeId(TY_ENUM) = I32
           FIX_D10,    \* eval2: ND_CAST arm typed by signedness, _Bool cast, results re-wrapped, ND_MOD constant
           MUT         \* "none" | "setl" | "movz" | "cdq" | "castrow" | "ptrsx" (pointer offset always sign-extended)
-                      \* | "atomicval" | "enumearly" (enumerator in scope before its own value is evaluated)
+                      \* | "atomicval" | "enumearly" | "asgskip" | "lenot" (enumerator in scope before its own value is evaluated)
 
 WI == WInt
 WL == WLong
@@ -146,8 +146,12 @@ ICond(tc, rc, a, ra, b, rb) ==
 Obs(x) == ICast(x.t, "ulong", x.r)
 
 (* contexts.  initializer / argument / return / assignment: new_cast to the destination type;
-   the object (or the callee's parameter slot) then holds the stored low bytes. *)
-IAsIf(td, x) == IR(td, ICast(x.t, td, x.r))
+   the object (or the callee's parameter slot) then holds the stored low bytes.  The VALUE of an
+   assignment expression is the register after that cast (codegen.c ND_ASSIGN leaves %rax alone after
+   store), for every kind of object.  MUT = "asgskip": a narrowing cast is dropped because the store
+   truncates anyway - the object is right, the value is not. *)
+IAsIf(td, x) == IF MUT = "asgskip" /\ td # "bool" /\ StoreW(td) < StoreW(x.t) THEN IR(td, x.r)
+                ELSE IR(td, ICast(x.t, td, x.r))
 ObjAfter(td, x) == Store(td, IAsIf(td, x).r)
 (* `A op= B` -> `tmp = &A, *tmp = *tmp op B` (parse.c to_assign); ml = the object's bits *)
 IOpAssign(op, tl, ml, x) == IAsIf(tl, IBin(op, tl, Load(tl, ml), x.t, x.r))
@@ -263,6 +267,18 @@ CE(e) ==
     [] e.k = "bin"  -> LET a == CE(e.a)  b == CE(e.b) IN CEBin(e.op, a.t, a.v, b.t, b.v)
     [] OTHER        -> LET c == CE(e.c)  a == CE(e.a)  b == CE(e.b)  ct == Common(a.t, b.t)
                        IN CR(ct, IF c.v # 0 THEN CastC(ct, a.v) ELSE CastC(ct, b.v))
+
+(* floating operands (eval3: fl/fr are host long doubles, C's own comparison operators; eval_truth).
+   MUT = "lenot": a <= b computed as !(b < a), true for unordered operands. *)
+CEFCmp(op, x, y) ==
+  LET un == x.nan \/ y.nan
+      lt(p, q) == ~(p.nan \/ q.nan) /\ p.ord < q.ord
+  IN Bool01(CASE op = "lt" -> lt(x, y) [] op = "gt" -> lt(y, x)                       \* a > b is ND_LT(b, a)
+              [] op = "le" -> (IF MUT = "lenot" THEN ~lt(y, x) ELSE ~un /\ x.ord <= y.ord)
+              [] op = "ge" -> (IF MUT = "lenot" THEN ~lt(x, y) ELSE ~un /\ y.ord <= x.ord)
+              [] op = "eq" -> ~un /\ x.ord = y.ord [] op = "ne" -> un \/ x.ord # y.ord
+              [] op = "land" -> FTruth(x) /\ FTruth(y) [] op = "lor" -> FTruth(x) \/ FTruth(y)
+              [] OTHER -> ~FTruth(x))
 
 (* parse.c is_const_expr (decides array vs VLA) *)
 RECURSIVE IsConst(_)
